@@ -1,5 +1,7 @@
 import Poulpy.Lemmas.HalSpec
 import Poulpy.Lemmas.NegMul
+import Poulpy.Lemmas.CnvSum
+import Poulpy.Lemmas.Ntt120Top
 
 /-!
 # C07 — DFT-domain products equal exact negacyclic (bivariate) convolution
@@ -14,8 +16,11 @@ with zero fill; transform-domain add/sub act limb-wise; the product is bilinear 
 product is the sum of the row products and the pairwise trick is sound).
 
 PARTIAL with respect to the property: the floating-point FFT (rounding error < 1/2 inside the
-documented domain) and the NTT120 butterflies/CRT are *not* proved — they are tied by the
-correspondence only (DESIGN.md §9).
+documented domain) and the NTT120 butterfly network are *not* proved — they are tied by the
+correspondence only (DESIGN.md §9).  Everything of the NTT120 back end *around* the butterflies
+is proved in the second half of this file (`namespace C07`, section "NTT120 integer arithmetic"):
+residues, CRT reconstruction with the concrete `Q`, lazy accumulation without 64-bit overflow,
+the lazy reductions, and the product pipeline under the explicit hypothesis `NttIsRingIso`.
 -/
 
 namespace C07
@@ -100,7 +105,7 @@ theorem vmp_eq_sum_svp (n : Nat) (a : List Poly) (m : PMat) (hn : m.n = n) (rl r
   rw [vmp_entry n a m 0 rl r hr]
   have h1 : 0 * m.colsOut < min (m.colsOut * m.size) (rl + 0 * m.colsOut) ∧
       r < min (m.colsOut * m.size) (rl + 0 * m.colsOut) - 0 * m.colsOut := by
-    simp; omega
+    simp only [Nat.zero_mul, Nat.add_zero, Nat.sub_zero]; omega
   rw [if_pos h1]
   congr 1
   apply List.map_congr_left
@@ -180,5 +185,287 @@ theorem mask_all_ones (x : Int) (h1 : -(2 ^ 63) ≤ x) (h2 : x < 2 ^ 63) : maskC
 example : negMul [0, 1, 0, 0] [0, 0, 0, 1] = [-1, 0, 0, 0] := by decide
 example : (idftCol 2 3 (dftApplyCol 2 1 0 3 [[1, 2], [3, 4]])) = [[1, 2], [3, 4], [0, 0]] := by decide
 example : cnvCoeff 2 [[1, 0], [2, 0]] [[3, 0], [4, 0]] 1 = [10, 0] := by decide
+
+
+/-! ## Convolution and vector-matrix product as sums over index sets -/
+
+/-- the loop bounds of `cnv_apply_dft` enumerate exactly the terms of the bivariate product:
+`cnvCoeff n a b k = Σ_{j < |b|, j ≤ k, k − j < |a|} a[k−j] · b[j]` (right-hand side a filtered sum
+over `List.range |b|`, `Hal.cnvCoeffSpec`) -/
+theorem cnv_coeff_eq_filtered_sum (n : Nat) (a b : Col) (k : Nat) (ha : 0 < a.length) :
+    cnvCoeff n a b k =
+      sumPolys n (((List.range b.length).filter (fun j => decide (j ≤ k ∧ k - j < a.length ∧ j < b.length))).map
+        (fun j => negMul (limbOr0 n a (k - j)) (limbOr0 n b j))) :=
+  cnvCoeff_eq_spec n a b k ha
+
+/-- `vmp_apply_dft_to_dft` is a vector-matrix product: inside the written range, flat output entry
+`r` is the dot product of the input row vector with column `r + limb_offset·cols_out` -/
+theorem vmp_entry_is_dot_product (n : Nat) (a : List Poly) (m : PMat) (lo rl r : Nat) (hr : r < rl) (d : Poly)
+    (h1 : lo * m.colsOut < min (m.colsOut * m.size) (rl + lo * m.colsOut))
+    (h2 : r < min (m.colsOut * m.size) (rl + lo * m.colsOut) - lo * m.colsOut) :
+    (vmpFlat n a m lo rl).getD r d =
+      dotPoly n (a.take (min (m.colsIn * m.rows) a.length)) (m.column (min (m.colsIn * m.rows) a.length) (r + lo * m.colsOut)) :=
+  vmp_entry_dot n a m lo rl r hr d h1 h2
+
+/-- the digit widths chosen by the generator (`vlib/halgen.py: pick_bits`, re-checked at run time by
+`vlib/c07.py`) lie inside the FFT64 magnitude domain `n·rows·|a|·|b| ≤ 2^50`, with the factor 4 the
+pairwise convolution needs -/
+theorem generator_in_fft64_domain (n rows bits : Nat) (hn : n = 2 ^ Nat.log2 n) (hr : 1 ≤ rows)
+    (hbud : 4 ≤ pickBitsBudget n rows) (hb1 : 1 ≤ bits) (hb : bits ≤ pickBitsCap n rows) :
+    InFft64Domain n rows (2 * 2 ^ (bits - 1)) (2 * 2 ^ (bits - 1)) :=
+  pick_bits_in_fft64_domain n rows bits hn hr hbud hb1 hb
+
+example : cnvCoeffSpec 2 [[1, 0], [2, 0]] [[3, 0], [4, 0]] 1 = [10, 0] := by decide
+example : pickBitsCap 64 6 = 17 ∧ pickBitsBudget 64 6 = 41 ∧ InFft64Domain 64 6 (2 * 2 ^ 16) (2 * 2 ^ 16) := by
+  refine ⟨by decide, by decide, ?_⟩
+  unfold InFft64Domain; decide
+example : dotPoly 2 [[1, 0], [0, 1]] [[2, 3], [4, 5]] = [-3, 7] := by decide
+
+/-! ## NTT120 integer arithmetic (everything of the NTT120 back end except the butterfly network)
+
+Model: `Model/Ntt120.lean` (executed by the driver `ntt120`, compared bit for bit with
+`poulpy_cpu_ref::reference::ntt120::*` and the `Ntt*` trait implementations of NTT120Ref and
+NTT120Avx, constants included).  `P.Good` is the list of closed facts about a prime set that the
+proofs use; `primes29_good`, `primes30_good`, `primes31_good` establish it for `primes.rs`. -/
+
+section NTT120
+open Ntt120
+
+/-- the modulus of the default prime set and the exactness bound, from the actual constants:
+`2^119 < Q < 2^120`, `(Q−1)/2 = 657821220234910467805273421263929344 > 2^118` -/
+theorem ntt120_Q :
+    bigQ primes30 = 1315642440469820935610546842527858689 ∧ 2 ^ 119 < bigQ primes30 ∧ bigQ primes30 < 2 ^ 120 ∧
+    (bigQ primes30 - 1) / 2 = 657821220234910467805273421263929344 ∧ 2 ^ 118 < (bigQ primes30 - 1) / 2 := by
+  decide +kernel
+
+/-- the constants of `primes.rs` satisfy everything the proofs need: the primes are pairwise
+coprime, below `2^32`, `CRT_CST[k]·(Q/Q[k]) ≡ 1 (mod Q[k])`, `4Q < 2^127`, `Q` odd, and the `i128`
+products of `b_to_znx128_ref` do not wrap -/
+theorem ntt120_constants_good : primes29.Good ∧ primes30.Good ∧ primes31.Good :=
+  ⟨primes29_good, primes30_good, primes31_good⟩
+
+/-- `OMEGA[k]` is a primitive `2^17`-th root of unity modulo `Q[k]` (`ω^(2^16) = −1`): the ring
+`Z_q[X]/(X^n+1)`, `n ≤ 2^16`, splits completely, so a transform satisfying `NttIsRingIso` exists -/
+theorem ntt120_omega_primitive :
+    ∀ k, k < 4 → (primes30.omega.getD k 0) ^ (2 ^ 16) % (primes30.qs.getD k 1) = primes30.qs.getD k 1 - 1 := by
+  decide +kernel
+
+/-- (a) `b_from_znx64_ref`: for **every** `i64` the four stored values are congruent to the input
+modulo the four primes, and are below `2^63 + 2^32` (no `u64` wrap) -/
+theorem ntt120_b_from_znx64_residues (P : PrimeSet) (g : P.Good) (x : Int) (h0 : -(2 ^ 63) ≤ x) (h1 : x < 2 ^ 63) (k : Nat) (hk : k < 4) :
+    ((bFromZnx64 P x).getD k 0 : Int) ≡ x [ZMOD (P.qs.getD k 1 : Nat)] ∧ (bFromZnx64 P x).getD k 0 < 2 ^ 63 + 2 ^ 32 :=
+  bFromZnx64_residues P g x h0 h1 k hk
+
+/-- (a) the masked form is `b_from_znx64` of `x & mask` (the coefficient mask of `cnv_prepare`) -/
+theorem ntt120_b_from_znx64_masked (P : PrimeSet) (x mask : Int) :
+    bFromZnx64Masked P x mask = bFromZnx64 P (maskCoeff mask x) :=
+  bFromZnx64Masked_eq P x mask
+
+/-- (a) the q120c forms hold the canonical residue `r` and `r·2^32 mod q`, for every integer input
+(`c_from_znx64_ref`) and every lazy `u64` residue (`c_from_b_ref`) -/
+theorem ntt120_c_forms (q : Nat) (hq0 : 0 < q) (hq : q < 2 ^ 32) (x : Int) (y : Nat) :
+    cFromZnx64K q x = [(x % (q : Int)).toNat, (x % (q : Int)).toNat * 2 ^ 32 % q] ∧
+    cFromBK q y = [y % q, y % q * 2 ^ 32 % q] :=
+  ⟨cFromZnx64K_eq q hq0 hq x, cFromBK_eq q hq0 hq y⟩
+
+/-- (b) `b_to_znx128_ref` returns the centred representative: congruent to `x` modulo `Q` and in
+`[−(Q−1)/2, (Q−1)/2]`, for arbitrary lazy `u64` residues congruent to `x` -/
+theorem ntt120_crt_centred (P : PrimeSet) (g : P.Good) (x : Int) (x0 x1 x2 x3 : Nat)
+    (h0 : (x0 : Int) ≡ x [ZMOD P.q0]) (h1 : (x1 : Int) ≡ x [ZMOD P.q1])
+    (h2 : (x2 : Int) ≡ x [ZMOD P.q2]) (h3 : (x3 : Int) ≡ x [ZMOD P.q3]) :
+    bToZnx128 P [x0, x1, x2, x3] = .ok (bToZnx128Core P x0 x1 x2 x3) ∧
+    bToZnx128Core P x0 x1 x2 x3 ≡ x [ZMOD (bigQ P : Int)] ∧
+    -(((bigQ P : Int) - 1) / 2) ≤ bToZnx128Core P x0 x1 x2 x3 ∧ bToZnx128Core P x0 x1 x2 x3 ≤ ((bigQ P : Int) - 1) / 2 :=
+  ⟨rfl, bToZnx128Core_centred P g x x0 x1 x2 x3 h0 h1 h2 h3⟩
+
+/-- (b) **CRT exactness**: `b_to_znx128_ref` returns exactly `x` whenever `|x| ≤ (Q−1)/2`
+(`|x| < Q/2`) — "NTT120 results are exact while the exact value stays below `Q/2`" -/
+theorem ntt120_crt_exact (P : PrimeSet) (g : P.Good) (x : Int) (x0 x1 x2 x3 : Nat)
+    (hlo : -(((bigQ P : Int) - 1) / 2) ≤ x) (hhi : x ≤ ((bigQ P : Int) - 1) / 2)
+    (h0 : (x0 : Int) ≡ x [ZMOD P.q0]) (h1 : (x1 : Int) ≡ x [ZMOD P.q1])
+    (h2 : (x2 : Int) ≡ x [ZMOD P.q2]) (h3 : (x3 : Int) ≡ x [ZMOD P.q3]) :
+    bToZnx128 P [x0, x1, x2, x3] = .ok x := by
+  show Outcome.ok (bToZnx128Core P x0 x1 x2 x3) = .ok x
+  rw [bToZnx128Core_exact P g x x0 x1 x2 x3 hlo hhi h0 h1 h2 h3]
+
+/-- (b) with the numbers of the default prime set: exact for `|x| ≤ 2^118` -/
+theorem ntt120_crt_exact_primes30 (x : Int) (x0 x1 x2 x3 : Nat) (hlo : -(2 ^ 118) ≤ x) (hhi : x ≤ 2 ^ 118)
+    (h0 : (x0 : Int) ≡ x [ZMOD primes30.q0]) (h1 : (x1 : Int) ≡ x [ZMOD primes30.q1])
+    (h2 : (x2 : Int) ≡ x [ZMOD primes30.q2]) (h3 : (x3 : Int) ≡ x [ZMOD primes30.q3]) :
+    bToZnx128 primes30 [x0, x1, x2, x3] = .ok x := by
+  have hq : ((bigQ primes30 : Nat) : Int) = 1315642440469820935610546842527858689 := by
+    have := ntt120_Q.1; exact_mod_cast this
+  apply ntt120_crt_exact primes30 primes30_good x x0 x1 x2 x3 _ _ h0 h1 h2 h3 <;> rw [hq] <;> omega
+
+/-- (a)+(b) round trip: `b_to_znx128(b_from_znx64(x)) = x` for every `i64` -/
+theorem ntt120_crt_roundtrip (P : PrimeSet) (g : P.Good) (hQ : 2 ^ 64 < bigQ P) (x : Int) (h0 : -(2 ^ 63) ≤ x) (h1 : x < 2 ^ 63) :
+    bToZnx128Core P ((bFromZnx64 P x).getD 0 0) ((bFromZnx64 P x).getD 1 0) ((bFromZnx64 P x).getD 2 0) ((bFromZnx64 P x).getD 3 0) = x :=
+  crt_roundtrip P g hQ x h0 h1
+
+/-- (c) **lazy accumulation never overflows 64 bits** — `vec_mat1col_product_bbc_ref`,
+`vec_mat1col_product_x2_bbc_ref`, `vec_mat2cols_product_x2_bbc_ref` (all instances of `bbcOut`)
+with the crate's `BbcMeta`: for fewer than 10 000 rows of arbitrary `u32` operands every output
+residue equals the un-wrapped expression `collapse …`, is below `2^63 + 2^47`, and is congruent to
+the exact dot product `Σ (x_lo·y_lo + x_hi·y_hi)` modulo its prime -/
+theorem ntt120_bbc_no_overflow (P : PrimeSet) (g : P.Good) (b : P.Below31) (ell sx ox sy oy : Nat) (x y : Array Nat)
+    (hell : ell < 10000) (hx : ∀ i, x.getD i 0 < 2 ^ 32) (hy : ∀ i, y.getD i 0 < 2 ^ 32) (k : Nat) (hk : k < 4) :
+    (bbcOut (bbcMeta P) ell sx ox sy oy x y).getD k 0 =
+      collapse (bbcH P) (pow2Mod 32 (P.qs.getD k 1)) (pow2Mod (32 + bbcH P) (P.qs.getD k 1))
+        (sumLo (bbcTerms ell k sx ox sy oy x y)) (sumHi (bbcTerms ell k sx ox sy oy x y)) ∧
+    (bbcOut (bbcMeta P) ell sx ox sy oy x y).getD k 0 < 2 ^ 63 + 2 ^ 47 ∧
+    (bbcOut (bbcMeta P) ell sx ox sy oy x y).getD k 0 ≡ dot (bbcTerms ell k sx ox sy oy x y) [MOD P.qs.getD k 1] :=
+  bbcOut_spec P g b ell sx ox sy oy x y hell hx hy k hk
+
+/-- (c) the per-prime kernel statement does not depend on the floating-point search of
+`BbcMeta::new`: it holds for **every** split point `16 ≤ h < 32` and constants below `2^31` -/
+theorem ntt120_bbc_kernel_any_split (q h p1 p2 : Nat) (ts : List Term) (hts : ∀ t ∈ ts, Term.u32 t) (hell : ts.length < 10000)
+    (hh : 16 ≤ h) (hh2 : h < 32) (hp1 : p1 < 2 ^ 31) (hp2 : p2 < 2 ^ 31)
+    (e1 : p1 ≡ 2 ^ 32 [MOD q]) (e2 : p2 ≡ 2 ^ (32 + h) [MOD q]) :
+    bbcK h p1 p2 ts = collapse h p1 p2 (sumLo ts) (sumHi ts) ∧ bbcK h p1 p2 ts < 2 ^ 63 + 2 ^ 47 ∧ bbcK h p1 p2 ts ≡ dot ts [MOD q] :=
+  bbcK_spec q h p1 p2 ts hts hell hh hh2 hp1 hp2 e1 e2
+
+/-- (c) `vec_mat1col_product_bbb_ref` with the crate's `BbbMeta` for Primes30 (and Primes29):
+no 64-bit wrap for fewer than 10 000 rows of arbitrary `u64` operands, result congruent to `Σ xᵢ·yᵢ` -/
+theorem ntt120_bbb_no_overflow (ell : Nat) (x y : Array Nat) (hell : ell < 10000)
+    (hx : ∀ i, x.getD i 0 < 2 ^ 64) (hy : ∀ i, y.getD i 0 < 2 ^ 64) (k : Nat) (hk : k < 4) :
+    bbbOutK (bbbMeta primes30) ell k x y ≡
+      dot2 ((List.range ell).map (fun i => (x.getD (4 * i + k) 0, y.getD (4 * i + k) 0))) [MOD primes30.qs.getD k 1] ∧
+    bbbOutK (bbbMeta primes29) ell k x y ≡
+      dot2 ((List.range ell).map (fun i => (x.getD (4 * i + k) 0, y.getD (4 * i + k) 0))) [MOD primes29.qs.getD k 1] :=
+  ⟨(bbbOutK_spec primes30 k (bbbCst30 k hk) ell x y hell hx hy).1, (bbbOutK_spec primes29 k (bbbCst29 k hk) ell x y hell hx hy).1⟩
+
+/-- (c) the lazy reductions by `Q_SHIFTED = Q[k] << 33` (`add_bbb_ref` / `NttAdd`, `NttSub`,
+`NttNegate` and their in-place forms): no wrap, result below `2·Q_SHIFTED`, congruent to
+`x + y`, `a − b`, `−a` — for primes below `2^30` (Primes29, Primes30) and arbitrary `u64` inputs -/
+theorem ntt120_lazy_add_sub_neg (q x y : Nat) (hq0 : 0 < q) (hq : q < 2 ^ 30) :
+    (addBbbK q x y < 2 * (q * 2 ^ 33) ∧ addBbbK q x y ≡ x + y [MOD q]) ∧
+    (subBbbK q x y < 2 * (q * 2 ^ 33) ∧ subBbbK q x y + y ≡ x [MOD q]) ∧
+    (0 < negBK q x ∧ negBK q x ≤ q * 2 ^ 33 ∧ negBK q x + x ≡ 0 [MOD q]) :=
+  ⟨⟨(addBbbK_spec q x y hq0 hq).2.1, (addBbbK_spec q x y hq0 hq).2.2⟩,
+   ⟨(subBbbK_spec q x y hq0 hq).2.1, (subBbbK_spec q x y hq0 hq).2.2⟩,
+   ⟨(negBK_spec q x hq0 hq).2.1, (negBK_spec q x hq0 hq).2.2.1, (negBK_spec q x hq0 hq).2.2.2⟩⟩
+
+/-- FULL STATEMENT of the documented contract of `add_bbb_ref` ("congruent to `x + y` and fits in 64
+bits provided `x, y < Q[k] << 33`") for every prime set is FALSE for Primes31, whose
+`2·(Q[k] << 33)` exceeds `2^64` (no back end uses Primes31): witness `x = y = (Q[0] << 33) − 1` -/
+theorem add_bbb_primes31_counterexample :
+    ¬ (addBbbK primes31.q0 (primes31.q0 * 2 ^ 33 - 1) (primes31.q0 * 2 ^ 33 - 1) ≡
+        (primes31.q0 * 2 ^ 33 - 1) + (primes31.q0 * 2 ^ 33 - 1) [MOD primes31.q0]) := by
+  decide +kernel
+
+/-- (c) the AVX2 kernels' single conditional subtraction (`lazy_reduce`) coincides with `% Q_SHIFTED`
+exactly on the documented input range `x < 2·Q_SHIFTED`; there NTT120Avx = NTT120Ref bit for bit -/
+theorem ntt120_avx_lazy_eq_ref (q x y : Nat) (hq0 : 0 < q) (hq : q < 2 ^ 30) (hx : x < 2 * (q * 2 ^ 33)) (hy : y < 2 * (q * 2 ^ 33)) :
+    addBbbAvxK q x y = addBbbK q x y ∧ subBbbAvxK q x y = subBbbK q x y ∧ negBAvxK q x = negBK q x :=
+  ⟨addBbbAvxK_eq q x y hq0 hq hx hy, subBbbAvxK_eq q x y hq0 hq hx hy, negBAvxK_eq q x hq0 hq hx⟩
+
+/-- outside that range the two differ (witness: the largest `u64`) — the AVX2 kernels rely on the
+input range, the reference kernels do not -/
+theorem ntt120_avx_lazy_differs_outside :
+    addBbbAvxK primes30.q0 (2 ^ 64 - 1) 0 ≠ addBbbK primes30.q0 (2 ^ 64 - 1) 0 := by
+  decide +kernel
+
+/-- (c) Barrett-style reduction of the butterflies (`modq_red`) and the split multiplication by a
+packed twiddle (`split_precompmul`): no wrap, congruent to the input resp. to `inp·ω` -/
+theorem ntt120_modq_red (q x h cst : Nat) (hh : h < 64) (hc : cst < 2 ^ 31) (hx : x < 2 ^ 64) (hroom : 33 ≤ h)
+    (e : cst ≡ 2 ^ h [MOD q]) :
+    modqRed x h (2 ^ h - 1) cst = x % 2 ^ h + x / 2 ^ h * cst ∧ modqRed x h (2 ^ h - 1) cst ≡ x [MOD q] :=
+  modqRed_spec q x h cst hh hc hx hroom e
+
+theorem ntt120_split_precompmul (q inp t t1 hb : Nat) (ht : t < 2 ^ 31) (ht1 : t1 < 2 ^ 31) (hhb : hb ≤ 32)
+    (hinp : inp < 2 ^ (2 * hb)) (e : t1 ≡ t * 2 ^ hb [MOD q]) :
+    splitPrecompmul inp (t1 * 2 ^ 32 + t) hb (2 ^ hb - 1) = inp % 2 ^ hb * t + inp / 2 ^ hb * t1 ∧
+    splitPrecompmul inp (t1 * 2 ^ 32 + t) hb (2 ^ hb - 1) ≡ inp * t [MOD q] :=
+  splitPrecompmul_spec q inp t t1 hb ht ht1 hhb hinp e
+
+/-- `pow2_mod(e, q) = 2^e mod q` (the reduction constants of every meta structure) -/
+theorem ntt120_pow2_mod (e q : Nat) (hq : 1 < q) (he : e < 2 ^ 64) : pow2Mod e q ≡ 2 ^ e [MOD q] ∧ pow2Mod e q < q :=
+  ⟨pow2Mod_spec e q hq he, pow2Mod_lt e q hq⟩
+
+/-- (d) the residue map `Z → Z_{q}` is a ring homomorphism on representatives -/
+theorem ntt120_residue_ring_hom (q : Nat) (a b : Int) (ra rb : Nat) (ha : (ra : Int) ≡ a [ZMOD q]) (hb : (rb : Int) ≡ b [ZMOD q]) :
+    ((ra * rb : Nat) : Int) ≡ a * b [ZMOD q] ∧ ((ra + rb : Nat) : Int) ≡ a + b [ZMOD q] :=
+  ⟨residue_mul q a b ra rb ha hb, residue_add q a b ra rb ha hb⟩
+
+/-- (d) one slot of `svp_apply_dft_to_dft` (`c_from_b` on the prepared operand, `bbc` with
+`ell = 1`): the product of the two lazy residues modulo the prime, no 64-bit wrap, any `u64` inputs -/
+theorem ntt120_slot_product (q h fa fb : Nat) (hq : 1 < q) (hq31 : q < 2 ^ 31) (hh : 16 ≤ h) (hh2 : h < 32) (hfa : fa < 2 ^ 64) :
+    slotProductK q h fa fb ≡ fa * fb [MOD q] ∧ slotProductK q h fa fb < 2 ^ 63 + 2 ^ 47 :=
+  slotProductK_modEq q h fa fb hq hq31 hh hh2 hfa
+
+/-- (d) **the NTT120 product pipeline equals the exact negacyclic product below `Q/2`**, under the
+explicit assumption `NttIsRingIso` on the butterfly networks of the four lanes (NOT proved; tied by
+the correspondence check): `b_from_znx64 → ntt → c_from_b → bbc → intt → b_to_znx128` applied to
+`i64` limbs `p`, `x` of length `n` returns exactly `p ⋆ x` whenever every coefficient of `p ⋆ x` is at
+most `(Q−1)/2` in absolute value -/
+theorem ntt120_pipeline_exact_partial (P : PrimeSet) (g : P.Good) (b : P.Below31)
+    (n : Nat) (ntt intt : Nat → List Nat → List Nat)
+    (iso0 : NttIsRingIso n P.q0 (ntt 0) (intt 0)) (iso1 : NttIsRingIso n P.q1 (ntt 1) (intt 1))
+    (iso2 : NttIsRingIso n P.q2 (ntt 2) (intt 2)) (iso3 : NttIsRingIso n P.q3 (ntt 3) (intt 3))
+    (hu64 : ∀ k v, v.length = n → (∀ i, i < n → v.getD i 0 < 2 ^ 64) → ∀ i, i < n → (ntt k v).getD i 0 < 2 ^ 64)
+    (p x : Poly) (hp : p.length = n) (hx : x.length = n)
+    (hpr : ∀ c ∈ p, -(2 ^ 63) ≤ c ∧ c < 2 ^ 63) (hxr : ∀ c ∈ x, -(2 ^ 63) ≤ c ∧ c < 2 ^ 63)
+    (hbound : ∀ i, i < n → -(((bigQ P : Int) - 1) / 2) ≤ (negMul p x).getD i 0 ∧ (negMul p x).getD i 0 ≤ ((bigQ P : Int) - 1) / 2) :
+    nttPipeline P (bbcH P) ntt intt p x = negMul p x :=
+  nttPipeline_exact P g b n (bbcH P) (bbcH_range P).1 (bbcH_range P).2 ntt intt iso0 iso1 iso2 iso3 hu64 p x hp hx hpr hxr hbound
+
+/-
+FULL STATEMENT (not proved): the same with `ntt k := ntt_ref` / `intt k := intt_ref` of
+`reference/ntt120/ntt.rs` (resp. the AVX2 twins) and no hypothesis `NttIsRingIso` — i.e. a proof that
+the split-radix butterfly network with lazy Barrett reductions computes the evaluation map at the
+odd powers of `ω` and its inverse.  Missing: a model of `ntt_butterfly_block` / `intt_butterfly_block`
+and the level-by-level bit-size invariant of `NttTable::new`.
+-/
+
+/-- the hypothesis is satisfiable: at ring degree 1 (`ntt_ref` / `intt_ref` return immediately) the
+identity is a ring isomorphism in the sense of `NttIsRingIso` -/
+theorem ntt120_iso_degree_one (q : Nat) : NttIsRingIso 1 q id id := idIso q
+
+/-- hence at `n = 1` the pipeline theorem holds outright (no assumption left): the executed
+pipeline of a one-coefficient ring returns the integer product whenever `|a·b| ≤ (Q−1)/2` -/
+theorem ntt120_pipeline_exact_degree_one (P : PrimeSet) (g : P.Good) (b : P.Below31) (a c : Int)
+    (ha : -(2 ^ 63) ≤ a ∧ a < 2 ^ 63) (hc : -(2 ^ 63) ≤ c ∧ c < 2 ^ 63)
+    (hbound : -(((bigQ P : Int) - 1) / 2) ≤ a * c ∧ a * c ≤ ((bigQ P : Int) - 1) / 2) :
+    nttPipeline P (bbcH P) (fun _ => id) (fun _ => id) [a] [c] = [a * c] := by
+  have e : negMul [a] [c] = [a * c] := by simp [negMul, polyAdd, polyScale, mulX]
+  rw [← e]
+  apply ntt120_pipeline_exact_partial P g b 1 (fun _ => id) (fun _ => id) (idIso _) (idIso _) (idIso _) (idIso _)
+  · intro k v _ hv i hi
+    exact hv i hi
+  · rfl
+  · rfl
+  · intro x hx; simp at hx; subst hx; exact ha
+  · intro x hx; simp at hx; subst hx; exact hc
+  · intro i hi
+    have i0 : i = 0 := by omega
+    subst i0
+    rw [e]; simpa using hbound
+
+/-! non-vacuity: concrete instances of the hypotheses and statements above -/
+
+example : bFromZnx64 primes30 (-1) = [9223372037798232568, 9223372036970549444, 9223372037283580214, 9223372037380339331] := by
+  decide +kernel
+example : ((9223372037798232568 : Nat) : Int) ≡ -1 [ZMOD (primes30.q0 : Nat)] := by decide +kernel
+/-- CRT of canonical and of lazy residues of `−(Q−1)/2`, the most negative exact value -/
+example : bToZnx128Core primes30 536739841 535756801 535363585 534118401 = -657821220234910467805273421263929344 := by
+  decide +kernel
+example : bToZnx128Core primes30 (536739841 + 17183798271 * primes30.q0) (535756801 + 3 * primes30.q1) 535363585
+    (534118401 + 17268123647 * primes30.q3) = -657821220234910467805273421263929344 := by
+  decide +kernel
+example : bToZnx128Core primes30 ((bFromZnx64 primes30 (-(2 ^ 63))).getD 0 0) ((bFromZnx64 primes30 (-(2 ^ 63))).getD 1 0)
+    ((bFromZnx64 primes30 (-(2 ^ 63))).getD 2 0) ((bFromZnx64 primes30 (-(2 ^ 63))).getD 3 0) = -(2 ^ 63) := by
+  decide +kernel
+/-- three rows of all-ones `u32` operands through the flat-operand function -/
+example : (bbcOut (bbcMeta primes30) 3 8 0 8 0 (Array.replicate 24 (2 ^ 32 - 1)) (Array.replicate 24 (2 ^ 32 - 1))).getD 0 0
+    % primes30.q0 = (3 * 2 * (2 ^ 32 - 1) * (2 ^ 32 - 1)) % primes30.q0 := by
+  decide +kernel
+example : primes30.Below31 ∧ primes29.Below31 ∧ primes31.Below31 := by
+  unfold PrimeSet.Below31; decide +kernel
+/-- the whole executed `n = 1` pipeline on a product just inside / just outside `Q/2` -/
+example : scalarPipeline primes30 25 (2 ^ 60) 570568956868604318 = 2 ^ 60 * 570568956868604318 := by decide +kernel
+example : scalarPipeline primes30 25 (2 ^ 60) 570568956868604319 = 2 ^ 60 * 570568956868604319 - bigQ primes30 := by decide +kernel
+example : nttPipeline primes30 25 (fun _ => id) (fun _ => id) [-3] [5] = [-15] := by decide +kernel
+
+end NTT120
 
 end C07
